@@ -661,6 +661,12 @@ func (w *World) CrashJunk(f *memfile.File, upto int, junk []byte) *memfile.File 
 // of the next write) as a new file.
 func (w *World) Crash(f *memfile.File, upto, torn int) *memfile.File {
 	img := f.ImageAt(upto, torn)
+	if torn > 0 && upto < f.LogLen() && bytes.Equal(img, f.ImageAt(upto+1, 0)) {
+		// the bytes of the write that did not land are equal to what was on the
+		// file before (a re-opened store overwriting leftovers of an abandoned
+		// flush): the image IS the image of the completed write
+		upto, torn = upto+1, 0
+	}
 	var regs []memfile.Region
 	for _, r := range decoder.ValueRegions(img) {
 		regs = append(regs, memfile.Region{Off: r[0], End: r[1]})
